@@ -8,10 +8,13 @@ package symex
 // to the real v1.initCertificate / v1.initProfile.
 
 import (
+	"encoding/json"
 	"go/types"
 	"reflect"
 	"strconv"
 	"strings"
+
+	"golang.org/x/tools/go/ssa"
 )
 
 func init() {
@@ -30,6 +33,11 @@ func init() {
 		unknown := func() value {
 			t := cfgPkg.Type("ErrorUnknownFile").Type()
 			return tuple{iface{}, iface{t: t, v: "config: top level must be a map containg a key called 'version' that contains an integer"}}
+		}
+		if t := strings.TrimSpace(string(bs)); strings.HasPrefix(t, "{") {
+			// JSON (a YAML flow mapping): the whole structure - extensions,
+			// profiles with attribute lists - is filled type-directed
+			return i.parseConfigJSON(fr, cfgPkg, t, unknown)
 		}
 		kv := map[string]string{}
 		section := ""
@@ -140,4 +148,158 @@ func init() {
 		}
 		return tuple{iface{}, i.errorFromString("can't parse as cert config / profile")}
 	}
+}
+
+// parseConfigJSON is the stub's reader for configuration files written as
+// JSON: decoded by the host into a generic tree, then stored into the v1
+// struct according to the Go type of each field (json tags, nested structs,
+// pointers, slices), as json.Unmarshal does; schema validation is skipped as
+// in the flat reader. The typed struct goes to the real initCertificate /
+// initProfile.
+func (i *interpreter) parseConfigJSON(fr *frame, cfgPkg *ssa.Package, text string, unknown func() value) value {
+	dec := json.NewDecoder(strings.NewReader(text))
+	dec.UseNumber()
+	var top map[string]any
+	if err := dec.Decode(&top); err != nil {
+		return unknown()
+	}
+	if n, ok := top["version"].(json.Number); !ok || n.String() != "1" {
+		return unknown()
+	}
+	v1 := i.sh.Pkgs[ModulePath+"/generator/config/v1"]
+	if v1 == nil {
+		panic(unsupported("config.ParseConfig stub: package v1 not loaded"))
+	}
+	var fill func(t types.Type, x any) (value, bool)
+	fill = func(t types.Type, x any) (value, bool) {
+		switch u := t.Underlying().(type) {
+		case *types.Pointer:
+			if x == nil {
+				return (*value)(nil), true
+			}
+			v, ok := fill(u.Elem(), x)
+			if !ok {
+				return nil, false
+			}
+			return &v, true
+		case *types.Struct:
+			m, isMap := x.(map[string]any)
+			if x == nil {
+				return zero(t), true
+			}
+			if !isMap {
+				return nil, false
+			}
+			out := zero(t).(structure)
+			for k := 0; k < u.NumFields(); k++ {
+				f := u.Field(k)
+				tag, _ := reflect.StructTag(u.Tag(k)).Lookup("json")
+				name, _, _ := strings.Cut(tag, ",")
+				if tag == "-" {
+					continue
+				}
+				if name == "" {
+					if f.Anonymous() {
+						// untagged embedded struct: its fields are read from the same object
+						v, ok := fill(f.Type(), x)
+						if !ok {
+							return nil, false
+						}
+						out[k] = v
+						continue
+					}
+					name = f.Name()
+				}
+				val, present := m[name]
+				if !present {
+					for key, vv := range m {
+						if strings.EqualFold(key, name) {
+							val, present = vv, true
+						}
+					}
+				}
+				if !present {
+					continue
+				}
+				v, ok := fill(f.Type(), val)
+				if !ok {
+					return nil, false
+				}
+				out[k] = v
+			}
+			return out, true
+		case *types.Slice:
+			if x == nil {
+				return []value(nil), true
+			}
+			xs, isList := x.([]any)
+			if !isList {
+				return nil, false
+			}
+			out := make([]value, len(xs))
+			for k, e := range xs {
+				v, ok := fill(u.Elem(), e)
+				if !ok {
+					return nil, false
+				}
+				out[k] = v
+			}
+			return out, true
+		case *types.Basic:
+			if x == nil {
+				return zero(t), true
+			}
+			switch {
+			case u.Kind() == types.String:
+				sv, ok := x.(string)
+				return sv, ok
+			case u.Kind() == types.Bool:
+				bv, ok := x.(bool)
+				return bv, ok
+			case u.Info()&types.IsInteger != 0:
+				n, ok := x.(json.Number)
+				if !ok {
+					return nil, false
+				}
+				iv, err := n.Int64()
+				if err != nil {
+					return nil, false
+				}
+				return mkInt(u.Kind(), uint64(iv)), true
+			case u.Info()&types.IsFloat != 0:
+				n, ok := x.(json.Number)
+				if !ok {
+					return nil, false
+				}
+				fv, err := n.Float64()
+				if err != nil {
+					return nil, false
+				}
+				if u.Kind() == types.Float32 {
+					return float32(fv), true
+				}
+				return fv, true
+			}
+		}
+		return nil, false
+	}
+	run := func(typeName, fnName string) value {
+		cc, ok := fill(v1.Type(typeName).Type(), top)
+		if !ok {
+			return tuple{iface{}, i.errorFromString("config stub: the file does not fit the Go types of the configuration")}
+		}
+		out := call(i, fr, 0, v1.Func(fnName), []value{cc}).(tuple)
+		if out[1].(iface).t != nil {
+			return tuple{iface{}, out[1]}
+		}
+		pt := v1.Func(fnName).Signature.Results().At(0).Type()
+		return tuple{iface{t: pt, v: out[0]}, iface{}}
+	}
+	if sv, _ := top["subject"].(string); sv != "" {
+		return run("CertConfig", "initCertificate")
+	}
+	if nv, _ := top["name"].(string); nv != "" {
+		return run("Profile", "initProfile")
+	}
+	return tuple{iface{}, i.errorFromString("can't parse as cert config / profile")}
 }
